@@ -1,1 +1,51 @@
+(* C09 - line-count reports a block iff its size breaks the bound.
+   Property theorems only; proofs are in proofs/C09_proofs.v. *)
 From BW Require Import SpecC09.
+From BWP Require Import TextFacts C09_proofs.
+
+(* The count the rule uses is the number of content lines holding a
+   non-whitespace character (0 for empty content). *)
+Theorem C09_count : forall content, count_nonblank content = spec_count content.
+Proof. exact count_nonblank_spec. Qed.
+Print Assumptions C09_count.
+
+(* Every "OP N" expression, any bound below 2^64, any whitespace around and
+   between, parses to exactly (OP, N). *)
+Theorem C09_parse_print : forall w1 w2 w3 op n,
+  all_ws w1 -> all_ws w2 -> all_ws w3 -> n < 18446744073709551616 ->
+  parse_constraint (print_constraint w1 w2 w3 op n) = Some (op, n).
+Proof. exact parse_constraint_print. Qed.
+Print Assumptions C09_parse_print.
+
+(* A block with a well-formed constraint gets exactly one diagnostic carrying
+   (actual, op, bound) at its start tag when the comparison fails, none otherwise. *)
+Theorem C09_violation_iff : forall file b expr op n content sev,
+  get_attr (T "line-count") (b_attrs b) = Some expr ->
+  parse_constraint expr = Some (op, n) ->
+  content_of file b = Ok content ->
+  sev_of (b_attrs b) = Ok sev ->
+  line_count file b =
+    Ok (if cop_holds op (spec_count content) n then []
+        else [tag_diag b V_COUNT sev [dec (spec_count content); cop_str op; dec n]]).
+Proof. exact line_count_correct. Qed.
+Print Assumptions C09_violation_iff.
+
+(* The model's answer always passes the executable specification that is
+   evaluated on the implementation's output in the correspondence run. *)
+Theorem C09_model_meets_spec : forall file b expr op n content sev ds,
+  get_attr (T "line-count") (b_attrs b) = Some expr ->
+  parse_constraint expr = Some (op, n) ->
+  content_of file b = Ok content ->
+  sev_of (b_attrs b) = Ok sev ->
+  line_count file b = Ok ds ->
+  spec_c09 (mkintent09 (b_ts b) (b_te b) content op n sev) ds = true.
+Proof. exact line_count_meets_spec. Qed.
+Print Assumptions C09_model_meets_spec.
+
+(* An expression that does not parse stops the run with an error (fails closed). *)
+Theorem C09_bad_expr : forall file b expr,
+  get_attr (T "line-count") (b_attrs b) = Some expr ->
+  parse_constraint expr = None ->
+  line_count file b = Err E_LINE_COUNT.
+Proof. exact line_count_bad_expr. Qed.
+Print Assumptions C09_bad_expr.
